@@ -431,11 +431,21 @@ type c09ts struct {
 	zone bool // interpreted in the valuer's zone
 }
 
+// c09rfc writes t with the zone's offset, or in UTC where the offset has
+// seconds (local mean time before standard time), which RFC3339 cannot express.
+func c09rfc(t time.Time, zone *time.Location) string {
+	if _, off := t.In(zone).Zone(); off%60 != 0 {
+		return t.UTC().Format(time.RFC3339Nano)
+	}
+	return t.In(zone).Format(time.RFC3339Nano)
+}
+
 func c09TimeAll(c *Ctx, only string) {
 	r := c.R
 	ny, _ := time.LoadLocation("America/New_York")
 	kol, _ := time.LoadLocation("Asia/Kolkata")
-	locs := []*time.Location{nil, ny, kol}
+	// two zones that share a name but not an offset (zone names are not unique)
+	locs := []*time.Location{nil, ny, kol, time.FixedZone("XST", 5*3600+1800), time.FixedZone("XST", -3*3600)}
 	now := time.Date(2021, 3, 14, 1, 59, 26, 535897932, time.UTC)
 	insts := []time.Time{
 		time.Date(2000, 1, 1, 0, 0, 0, 0, time.UTC),
@@ -443,6 +453,12 @@ func c09TimeAll(c *Ctx, only string) {
 		time.Date(2021, 3, 14, 2, 30, 0, 0, time.UTC),
 		time.Date(1970, 1, 1, 0, 0, 0, 1, time.UTC),
 		time.Date(2262, 1, 1, 0, 0, 0, 0, time.UTC),
+		// outside the range of 64-bit nanosecond timestamps: still instants
+		time.Date(1500, 6, 1, 0, 0, 0, 0, time.UTC),
+		time.Date(2300, 1, 1, 12, 0, 0, 0, time.UTC),
+		time.Date(9999, 6, 30, 23, 59, 59, 0, time.UTC),
+		time.Date(2262, 4, 11, 23, 47, 17, 0, time.UTC),
+		time.Date(1677, 9, 21, 0, 12, 43, 0, time.UTC),
 	}
 	durs := []time.Duration{0, 1, -1, time.Hour, -time.Hour, 7 * 24 * time.Hour, 1500 * time.Millisecond}
 	fmtDur := func(d time.Duration) string {
@@ -500,12 +516,12 @@ func c09TimeAll(c *Ctx, only string) {
 		for _, t := range insts {
 			tss = append(tss,
 				c09ts{"'" + t.Format(time.RFC3339Nano) + "'", t, false},
-				c09ts{"'" + t.In(zone).Format(time.RFC3339Nano) + "'", t, false},
+				c09ts{"'" + c09rfc(t, zone) + "'", t, false},
 				c09ts{"'" + t.In(zone).Format("2006-01-02 15:04:05.999999") + "'", t.Truncate(time.Microsecond), true},
 			)
 			day := time.Date(t.In(zone).Year(), t.In(zone).Month(), t.In(zone).Day(), 0, 0, 0, 0, zone)
 			tss = append(tss, c09ts{"'" + day.Format("2006-01-02") + "'", day, true})
-			if li == 0 && t.Year() < 2262 {
+			if li == 0 && t.Year() < 2262 && t.Year() > 1678 {
 				tss = append(tss, c09ts{strconv.FormatInt(t.UnixNano(), 10), t, false})
 			}
 		}
@@ -528,7 +544,10 @@ func c09TimeAll(c *Ctx, only string) {
 				if aInt || bInt {
 					continue
 				}
-				check(a.text+" - "+b.text, valuer, &influxql.DurationLiteral{Val: a.t.Sub(b.t)})
+				if d := a.t.Sub(b.t); d != math.MaxInt64 && d != math.MinInt64 {
+					// (a difference that does not fit in a duration has no exact value)
+					check(a.text+" - "+b.text, valuer, &influxql.DurationLiteral{Val: d})
+				}
 				for _, op := range []string{"=", "!=", "<", "<=", ">", ">="} {
 					var w bool
 					switch op {
